@@ -256,3 +256,138 @@ Proof.
     with (map_chars paren_eq_blank (lower (colon_sub s 0 false)) ++ String " " "").
   rewrite words_app_ws by reflexivity. apply app_nil_r.
 Qed.
+
+(* ---- densities with letters (1.5e-3, 6.4d-2) in the rendered form ---- *)
+Definition nolead (c : ascii) : bool := negb (is_opt_lead c).
+
+Lemma opt_free_cons2 x y r :
+  opt_free (String x (String y r)) = negb (is_opt_lead x && is_opt_start y) && opt_free (String y r).
+Proof. reflexivity. Qed.
+
+Lemma opt_free_nostart_prefix a b :
+  all_chars nostart a = true -> head_fails is_opt_start b ->
+  opt_free (a ++ b) = opt_free b.
+Proof.
+  intros Ha Hb. induction a as [|x a IH]; [reflexivity|].
+  cbn [all_chars] in Ha. apply andb_true_iff in Ha. destruct Ha as [_ Ha].
+  cbn [append]. specialize (IH Ha).
+  destruct (a ++ b) as [|y r] eqn:E.
+  - destruct a; [|discriminate]. cbn in E. subst b. reflexivity.
+  - rewrite opt_free_cons2, IH.
+    assert (Hy : is_opt_start y = false).
+    { destruct a as [|a0 a']; cbn [append] in E.
+      - subst b. exact Hb.
+      - injection E as -> _. cbn [all_chars] in Ha. apply andb_true_iff in Ha. destruct Ha as [Ha _].
+        unfold nostart in Ha. now apply negb_true_iff in Ha. }
+    now rewrite Hy, andb_false_r.
+Qed.
+
+Lemma opt_free_nolead_prefix s b : all_chars nolead s = true -> opt_free (s ++ b) = opt_free b.
+Proof.
+  intros Hs. induction s as [|x s IH]; [reflexivity|].
+  cbn [all_chars] in Hs. apply andb_true_iff in Hs. destruct Hs as [Hx Hs].
+  unfold nolead in Hx. apply negb_true_iff in Hx. cbn [append]. specialize (IH Hs).
+  destruct (s ++ b) as [|y r] eqn:E.
+  - destruct s; [|discriminate]. cbn in E. subst b. reflexivity.
+  - rewrite opt_free_cons2, IH. now rewrite Hx.
+Qed.
+
+(* density: no blank, no parenthesis, does not start with a letter or a star *)
+Theorem cell_split_rendered_density bl br name m r0 rho gs d o os :
+  all_chars is_digit name = true -> name <> "" ->
+  all_chars is_digit m = true -> all_chars (ceq "0") m = false ->
+  all_chars dens_char (String r0 rho) = true -> all_chars nolead (String r0 rho) = true ->
+  is_opt_start r0 = false ->
+  gs <> [] -> Forall geom_token gs -> is_opt_start d = true ->
+  cell_split (pad bl ++ join " " (name :: m :: String r0 rho :: gs ++ String d o :: os) ++ pad br)
+  = Ok (pad bl ++ name, " " ++ m ++ " " ++ String r0 rho, " " ++ join " " gs ++ " ",
+        join " " (String d o :: os) ++ pad br).
+Proof.
+  intros Hn Nn Hm Hm0 Hr Hrl Hr0 Ng Hg Hd.
+  set (rh := String r0 rho) in *.
+  assert (E : pad bl ++ join " " (name :: m :: rh :: gs ++ String d o :: os) ++ pad br
+              = pad bl ++ name ++ " " ++ m ++ " " ++ rh ++ String " " (join " " gs) ++ String " " (String d
+                  (match os with [] => o | _ => o ++ " " ++ join " " os end ++ pad br))).
+  { change (name :: m :: rh :: gs ++ String d o :: os)%list with (name :: m :: rh :: (gs ++ String d o :: os))%list.
+    destruct gs as [|g0 gs']; [contradiction|].
+    change (join " " (name :: m :: rh :: (g0 :: gs') ++ String d o :: os)%list)
+      with (name ++ " " ++ m ++ " " ++ rh ++ " " ++ join " " ((g0 :: gs') ++ String d o :: os)%list).
+    rewrite join_app by discriminate. rewrite !sapp_assoc. cbn [append].
+    destruct os; cbn [join append]; now rewrite ?sapp_assoc. }
+  rewrite E.
+  assert (R : join " " (String d o :: os) ++ pad br
+              = String d (match os with [] => o | _ => o ++ " " ++ join " " os end ++ pad br)).
+  { destruct os; cbn [join append]; now rewrite ?sapp_assoc. }
+  rewrite R.
+  assert (G : " " ++ join " " gs ++ " " = String " " (join " " gs) ++ String " " "") by reflexivity.
+  rewrite G.
+  apply cell_split_material_options; auto; try discriminate; try (now destruct bl).
+  assert (J : all_chars nostart (join " " gs) = true).
+  { apply all_chars_join; [reflexivity|]. clear -Hg. induction Hg as [|t r [_ Ht] _ IH]; constructor; auto. }
+  assert (P : pad bl ++ name ++ " " ++ m ++ " " ++ rh ++ String " " (join " " gs) ++ String " " ""
+              = (pad bl ++ name ++ " " ++ m ++ " ") ++ rh ++ String " " (join " " gs) ++ String " " "")
+    by now rewrite !sapp_assoc.
+  rewrite P.
+  rewrite opt_free_nostart_prefix.
+  - rewrite (opt_free_nolead_prefix rh _ Hrl). apply opt_free_all.
+    repeat (rewrite all_chars_app || rewrite all_chars_cons). now rewrite J.
+  - repeat (rewrite all_chars_app || rewrite all_chars_cons).
+    now rewrite pad_nostart, (digits_nostart _ Hn), (digits_nostart _ Hm).
+  - unfold rh. cbn [append]. exact Hr0.
+Qed.
+
+(* ---- a LIKE n BUT card as Card.content renders it ---- *)
+Theorem cell_split_rendered_like bl br name l1 l2 l3 l4 n b1 b2 b3 opts :
+  all_chars is_digit name = true -> name <> "" ->
+  lower (String l1 (String l2 (String l3 (String l4 "")))) = "like" -> is_but b1 b2 b3 ->
+  is_token n -> has_but (match opts with [] => "" | _ => " " ++ join " " opts end ++ pad br) = false ->
+  cell_split (pad bl ++ join " " (name :: String l1 (String l2 (String l3 (String l4 ""))) :: n
+                                   :: String b1 (String b2 (String b3 "")) :: opts) ++ pad br)
+  = Ok (pad bl ++ name, "",
+        " " ++ String l1 (String l2 (String l3 (String l4 (" " ++ n ++ " " ++ String b1 (String b2 (String b3 "")))))),
+        match opts with [] => "" | _ => " " ++ join " " opts end ++ pad br).
+Proof.
+  intros Hn Nn Hl Hb Ht Hr.
+  set (L := String l1 (String l2 (String l3 (String l4 "")))).
+  set (B := String b1 (String b2 (String b3 ""))).
+  set (rest := match opts with [] => "" | _ => " " ++ join " " opts end ++ pad br) in *.
+  assert (E : pad bl ++ join " " (name :: L :: n :: B :: opts) ++ pad br
+              = pad bl ++ name ++ " " ++ String l1 (String l2 (String l3 (String l4
+                  ((" " ++ n ++ " ") ++ String b1 (String b2 (String b3 rest))))))).
+  { unfold rest, L, B. destruct opts as [|o1 os]; cbn [join append]; rewrite ?sapp_assoc; cbn [append];
+      rewrite ?sapp_assoc; reflexivity. }
+  rewrite E. unfold cell_split.
+  (* the second word is "like" *)
+  assert (TL : is_token L).
+  { split; [discriminate|]. unfold L. cbn [lower] in Hl. injection Hl as E1 E2 E3 E4.
+    cbn [all_chars]. unfold nows.
+    assert (W : forall c x, lower_char c = x -> is_ws x = false -> is_ws c = false).
+    { intros c x <-. now rewrite lower_ws. }
+    now rewrite (W l1 _ E1 eq_refl), (W l2 _ E2 eq_refl), (W l3 _ E3 eq_refl), (W l4 _ E4 eq_refl). }
+  assert (Wd : exists w3 ws3, words (pad bl ++ name ++ " " ++ String l1 (String l2 (String l3 (String l4
+                  ((" " ++ n ++ " ") ++ String b1 (String b2 (String b3 rest)))))))
+                = name :: L :: w3 :: ws3).
+  { rewrite (words_ws (pad bl)) by (now destruct bl).
+    rewrite (words_token_app name) by (try (now apply digits_token); right; reflexivity).
+    cbn [append]. rewrite words_cons. change (is_ws " ") with true. cbv beta iota.
+    change (String l1 (String l2 (String l3 (String l4 (String " " ((n ++ " ") ++ String b1 (String b2 (String b3 rest))))))))
+      with (L ++ String " " ((n ++ " ") ++ String b1 (String b2 (String b3 rest)))).
+    rewrite (words_token_app L) by (try exact TL; right; reflexivity).
+    rewrite words_cons. change (is_ws " ") with true. cbv beta iota. rewrite sapp_assoc.
+    rewrite (words_token_app n) by (try exact Ht; right; reflexivity).
+    eexists; eexists; reflexivity. }
+  destruct Wd as (w3 & ws3 & ->).
+  fold L in Hl. rewrite Hl.
+  change (String.eqb "like" "like") with true. cbv beta iota.
+  rewrite <- (sapp_assoc (pad bl) name).
+  change ((pad bl ++ name) ++ " " ++ String l1 (String l2 (String l3 (String l4
+            ((" " ++ n ++ " ") ++ String b1 (String b2 (String b3 rest)))))))
+    with ((pad bl ++ name) ++ " " ++ String l1 (String l2 (String l3 (String l4
+            ((" " ++ n ++ " ") ++ String b1 (String b2 (String b3 rest))))))).
+  assert (Sp : likebut_split (pad bl ++ name ++ " " ++ String l1 (String l2 (String l3 (String l4
+                  ((" " ++ n ++ " ") ++ String b1 (String b2 (String b3 rest)))))))
+               = Ok (pad bl ++ name, " " ++ String l1 (String l2 (String l3 (String l4
+                       ((" " ++ n ++ " ") ++ String b1 (String b2 (String b3 "")))))), rest)).
+  { apply likebut_split_shape; auto; try discriminate. now destruct bl. }
+  rewrite sapp_assoc, Sp. rewrite !sapp_assoc. reflexivity.
+Qed.
